@@ -403,6 +403,198 @@ def loader_tasks(case, root, cache_dir, link):
     return tasks
 
 
+UNIT_TICKS = {'weeks': 604800 * Q, 'days': 86400 * Q, 'hours': 3600 * Q, 'minutes': 60 * Q, 'seconds': Q}
+
+
+def delta_ticks(delta):
+    return sum(UNIT_TICKS[k] * v for k, v in delta.items())
+
+
+def entry_cases():
+    """Deterministic cases for run_entry: one cleanup entry of seed.yaml, loaded and run the way mapproxy-seed does.
+    (a) the entry lists several caches and the run has a progress store (--progress-file): every cache of the entry
+        has to be cleaned (the progress of one cache must not be taken for the progress of the next);
+    (b) remove_before given as a time delta of several units: the remove time is now minus the SUM of the units; tiles
+        whose age lies between the largest unit alone and the sum are newer than the remove time and have to stay."""
+    out = []
+    tiles = [(0, 0, 0), (1, 1, 0), (1, 0, 1), (2, 0, 0), (2, 1, 2), (2, 3, 3), (2, 2, 1)]
+    ents = [{'kind': 'tile', 'dim': 0, 'l': l, 'x': x, 'y': y, 't': 120} for l, x, y in tiles] + \
+           [{'kind': 'tile', 'dim': 0, 'l': 2, 'x': 3, 'y': 0, 't': 200}, {'kind': 'tile', 'dim': 0, 'l': 1, 'x': 0, 'y': 0, 't': 200}]
+    for bs, names in ((['file:tc', 'file:tc'], ['ca', 'cb']), (['file:tc', 'file:tc'], ['cb', 'ca']),
+                      (['file:tms', 'file:mp', 'file:arcgis'], ['cz', 'cy', 'cx']),
+                      (['sqlite', 'file:quadkey'], ['ca', 'cb']), (['file:quadkey', 'sqlite', 'file:tc'], ['cc', 'cb', 'ca']),
+                      (['compact2', 'gpkglevel'], ['ca', 'cb'])):
+        for complete in (False, True):
+            ts = all(supports_timestamp(b) for b in bs)
+            out.append({'backends': bs, 'names': names, 'grid': 'g3', 'meta': [2, 2], 'progress': True, 'guarded': True,
+                        'task': {'levels': [1, 2], 'T': 160, 'all': not ts, 'complete': complete,
+                                 'cov': [0, 0, 1024, 1024] if complete else [0, 0, 500, 1024]},
+                        'entries': [dict(e) for e in ents]})
+    for delta in ({'days': 1, 'hours': 12}, {'weeks': 1, 'days': 2, 'minutes': 30}, {'hours': 2, 'minutes': 30, 'seconds': 15},
+                  {'days': 2}):      # margins of a quarter of an hour and more: the loader reads the clock later than the harness
+        full = delta_ticks(delta)
+        dts = sorted(set([-3600 * Q, full - 60 * Q] + [(full - UNIT_TICKS[k] * v) // 2 for k, v in delta.items() if len(delta) > 1]))
+        for bs, complete in ((['file:tc'], True), (['file:tc', 'sqlite'], False), (['sqlite'], True)):
+            es = []
+            for i, dt in enumerate(dts):
+                es.append({'kind': 'tile', 'dim': 0, 'l': 2, 'x': i % 4, 'y': i // 4, 'dt': dt})
+                if i < 4:
+                    es.append({'kind': 'tile', 'dim': 0, 'l': 1, 'x': i % 2, 'y': i // 2, 'dt': -3600 * Q})
+            es.append({'kind': 'tile', 'dim': 0, 'l': 0, 'x': 0, 'y': 0, 'dt': -3600 * Q})
+            out.append({'backends': bs, 'names': ['c%d' % i for i in range(len(bs))], 'grid': 'g3', 'meta': [2, 2],
+                        'progress': False, 'guarded': True,
+                        'task': {'levels': [2], 'delta': delta, 'all': False, 'complete': complete, 'cov': [0, 0, 1024, 1024]},
+                        'entries': es})
+    return out
+
+
+def run_entry(ctx, spec):
+    """One cleanup entry of a seed.yaml with the caches spec['backends'] (every cache gets the same contents), loaded by
+    the real configuration loader and cleaned by the real cleanup() - with a real ProgressStore when spec['progress'].
+    Returns [(case, obs)] per cache in the order of the loader's tasks (case: single-cache case with concrete times)."""
+    import yaml
+    from mapproxy.seed.config import load_seed_tasks_conf
+    from mapproxy.config.loader import load_configuration
+    from mapproxy.seed import cleanup as cleanup_mod
+    from mapproxy.seed.util import ProgressStore, ProgressLog
+    import mapproxy.grid as grid_mod
+    root = ctx.tmpdir('c12entry')
+    grid = make_grid(spec['grid'])
+    bbox, ts, ress = GRIDS[spec['grid']]
+    t = dict(spec['task'])
+    entries = [dict(e) for e in spec['entries']]
+    if t.get('delta'):
+        t['T'] = int(round((time.time() - BASE) * Q)) - delta_ticks(t['delta'])
+        for e in entries:
+            e['t'] = t['T'] + e.pop('dt')
+    caches, dirs_of, paths_of = {}, {}, {}
+    for b, name in zip(spec['backends'], spec['names']):
+        cache_dir = os.path.join(root, name)
+        if b.startswith('file:'):
+            cc = {'type': 'file', 'directory': cache_dir, 'directory_layout': b.split(':')[1]}
+        elif b == 'sqlite':
+            cc = {'type': 'sqlite', 'directory': cache_dir}
+            cache_dir = os.path.join(cache_dir, 'gg')          # the loader appends the grid name
+        elif b == 'gpkglevel':
+            cc = {'type': 'geopackage', 'directory': cache_dir, 'levels': True, 'table_name': 'tiles_tbl'}
+            cache_dir = os.path.join(cache_dir, 'gg')
+        elif b == 'compact2':
+            cc = {'type': 'compact', 'version': 2, 'directory': cache_dir}
+        else:
+            raise ValueError('no loader configuration for ' + b)
+        caches[name] = {'grids': ['gg'], 'sources': [], 'cache': cc, 'meta_size': list(spec['meta']), 'format': 'image/png'}
+        dirs_of[name] = cache_dir
+        paths_of[name] = fill(dict(spec, backend=b, entries=entries), cache_dir, grid)
+    mp = {'services': {'tms': {}},
+          'grids': {'gg': {'srs': 'EPSG:3857', 'bbox': list(bbox), 'res': list(ress), 'origin': 'll', 'tile_size': [ts, ts]}},
+          'caches': caches,
+          'layers': [{'name': n, 'title': n, 'sources': [n]} for n in spec['names']],
+          'globals': {'cache': {'base_dir': os.path.join(root, 'base'), 'lock_dir': os.path.join(root, 'locks'),
+                                'tile_lock_dir': os.path.join(root, 'tlocks')}}}
+    cl = {'caches': list(spec['names']), 'grids': ['gg'], 'levels': list(t['levels'])}
+    if t['all']:
+        cl['remove_all'] = True
+    elif t.get('delta'):
+        cl['remove_before'] = dict(t['delta'])
+    else:
+        stamp = os.path.join(root, 'stamp')
+        with open(stamp, 'w') as f:
+            f.write('x')
+        set_mtime(stamp, t['T'])
+        cl['remove_before'] = {'mtime': stamp}
+    seed = {'cleanups': {'cl': cl}}
+    if not t['complete']:
+        seed['coverages'] = {'cov': {'bbox': list(t['cov']), 'srs': 'EPSG:3857'}}
+        cl['coverages'] = ['cov']
+    mpf, sf = os.path.join(root, 'mapproxy.yaml'), os.path.join(root, 'seed.yaml')
+    with open(mpf, 'w') as f:
+        yaml.safe_dump(mp, f)
+    with open(sf, 'w') as f:
+        yaml.safe_dump(seed, f)
+    tasks = load_seed_tasks_conf(sf, load_configuration(mpf, seed=True)).cleanups()
+    order = [task.md['cache_name'] for task in tasks]
+    if sorted(order) != sorted(spec['names']):
+        raise RuntimeError('loader built tasks for %r' % (order,))
+    walks = []
+    orig = grid_mod.MetaGrid.tile_list
+    orig_walker = cleanup_mod.tilewalker_cleanup
+
+    def recording_tile_list(self, main_tile):
+        walks[-1][1].append(tuple(main_tile))
+        return orig(self, main_tile)
+
+    def recording_walker(task, *a, **kw):
+        walks.append((task.md['cache_name'], []))
+        return orig_walker(task, *a, **kw)
+
+    def on_alarm(signum, frame):
+        raise CleanupHang('cleanup() did not return within %d s' % WATCHDOG)
+
+    raised = None
+    grid_mod.MetaGrid.tile_list = recording_tile_list
+    cleanup_mod.tilewalker_cleanup = recording_walker
+    old_handler = signal.signal(signal.SIGALRM, on_alarm)
+    signal.alarm(WATCHDOG)
+    try:
+        with contextlib.redirect_stdout(io.StringIO()):
+            logger = None
+            if spec['progress']:
+                store = ProgressStore(os.path.join(root, 'progress'), continue_seed=False)
+                logger = ProgressLog(out=io.StringIO(), silent=True, verbose=False, progress_store=store)
+            cleanup_mod.cleanup(tasks, concurrency=1, verbose=False, progress_logger=logger)
+    except CleanupHang:
+        for p in multiprocessing.active_children():
+            p.terminate()
+        raise
+    except Exception as ex:   # an observation, not a harness crash
+        raised = type(ex).__name__ + ': ' + str(ex)[:200]
+    finally:
+        signal.alarm(0)
+        signal.signal(signal.SIGALRM, old_handler)
+        grid_mod.MetaGrid.tile_list = orig
+        cleanup_mod.tilewalker_cleanup = orig_walker
+    for task in tasks:
+        task.tile_manager.cleanup()
+    out = []
+    for name in order:
+        b = spec['backends'][spec['names'].index(name)]
+        case = {'backend': b, 'grid': spec['grid'], 'meta': spec['meta'], 'guarded': True, 'task': t, 'entries': entries,
+                'cleanup_entry': {'caches': list(zip(spec['names'], spec['backends'])), 'task_order': order, 'this': name,
+                                  'progress_store': spec['progress']}}
+        dirs, survived = observe(case, b, dirs_of[name], grid, False, paths_of[name])
+        walked = [w for n, w in walks if n == name]
+        out.append((case, {'survived': survived, 'dirs': dirs, 'walked': walked[0] if walked else [], 'walks': walked,
+                           'raised': raised}))
+    shutil.rmtree(root, ignore_errors=True)
+    return out
+
+
+def observe(case, b, cache_dir, grid, link, paths):
+    """What is left of the entries of the case in the cache of backend b: (level directories, survived per entry)."""
+    from mapproxy.cache.tile import Tile
+    # directories first (fresh cache objects of the per-level backends create files)
+    _, _, _, spans, _ = grid_info(case['grid'])
+    dirs = []
+    for l in range(len(spans)):
+        d = tile_top(b, l)
+        dirs.append(bool(d is not None and os.path.isdir(os.path.join(cache_dir, dname_str(d)))))
+    fresh = make_cache(b, cache_dir, grid, link)
+    survived = []
+    for e, p in zip(case['entries'], paths):
+        if e['kind'] == 'tile':
+            there = bool(fresh.is_cached(Tile((e['x'], e['y'], e['l'])), dimensions=DIMS[e['dim']]))
+            if e.get('link') is not None:
+                there = os.path.lexists(p)     # the link itself; is_cached follows it
+            if p is not None and there != os.path.lexists(p):
+                raise RuntimeError('cache API and directory listing disagree on %s' % p)
+            survived.append(there)
+        else:
+            survived.append(os.path.lexists(p))
+    if hasattr(fresh, 'cleanup'):
+        fresh.cleanup()
+    return dirs, survived
+
+
 def run_impl(ctx, case, interrupt_at=None):
     """Fill a real cache, run the real cleanup, observe.  Returns dict(survived, dirs, walked, raised).
     interrupt_at=k: run with a progress store, the first run dies (KeyboardInterrupt) when it starts to clean the
@@ -536,26 +728,7 @@ def run_impl(ctx, case, interrupt_at=None):
         cleanup_mod.tilewalker_cleanup = orig_walker
     if hasattr(cache, 'cleanup'):
         cache.cleanup()
-    # observe: directories first (fresh cache objects of the per-level backends create files)
-    _, _, _, spans, _ = grid_info(case['grid'])
-    dirs = []
-    for l in range(len(spans)):
-        d = tile_top(b, l)
-        dirs.append(bool(d is not None and os.path.isdir(os.path.join(cache_dir, dname_str(d)))))
-    fresh = make_cache(b, cache_dir, grid, link)
-    survived = []
-    for e, p in zip(case['entries'], paths):
-        if e['kind'] == 'tile':
-            there = bool(fresh.is_cached(Tile((e['x'], e['y'], e['l'])), dimensions=DIMS[e['dim']]))
-            if e.get('link') is not None:
-                there = os.path.lexists(p)     # the link itself; is_cached follows it
-            if p is not None and there != os.path.lexists(p):
-                raise RuntimeError('cache API and directory listing disagree on %s' % p)
-            survived.append(there)
-        else:
-            survived.append(os.path.lexists(p))
-    if hasattr(fresh, 'cleanup'):
-        fresh.cleanup()
+    dirs, survived = observe(case, b, cache_dir, grid, link, paths)
     shutil.rmtree(root, ignore_errors=True)
     return {'survived': survived, 'dirs': dirs, 'walked': walks[0] if walks else [], 'walks': walks, 'raised': raised}
 
@@ -1135,6 +1308,16 @@ class ResumeCtx(object):
         self.ctx.fail(signature, 'after interruption and --continue: ' + what, replay)
 
 
+class EntryCtx(object):
+    """failures of the whole-entry stream say which cache of the entry and how the run was made"""
+
+    def __init__(self, ctx, what):
+        self.ctx, self.what = ctx, what
+
+    def fail(self, signature, what, replay):
+        self.ctx.fail(signature + ',cleanup-entry', self.what + what, replay)
+
+
 def run_cases(ctx, cases, tag, budget=None):
     import time
     terms, descr = [], []
@@ -1294,6 +1477,26 @@ def run(ctx):
             c['task']['all'] = True        # the loader refuses remove_before for these
         c['guarded'] = True
     run_cases(ctx, lcases, 'loader_tasks')
+    # 2g. whole cleanup entries (several caches, progress store; remove_before as a delta of several units) - deterministic
+    terms, descr = [], []
+    for spec in entry_cases():
+        try:
+            res = run_entry(ctx, spec)
+        except Exception as ex:
+            ctx.problem('harness', 'cleanup entry could not be run on the implementation: %r' % (ex,), {'entry': spec})
+            continue
+        ctx.case(('entry', json.dumps(spec, sort_keys=True)), True, None)
+        ctx.count('entry_caches=%d' % len(spec['backends']))
+        ctx.count('entry_remove_before=%s' % ('delta:' + '+'.join(sorted(spec['task']['delta'])) if spec['task'].get('delta')
+                                              else 'all' if spec['task']['all'] else 'mtime'))
+        for k, (case, obs) in enumerate(res):
+            what = 'cache %d of %d of one cleanup entry%s%s: ' % (
+                k + 1, len(res), ', run with a progress store' if spec['progress'] else '',
+                ', remove_before %r' % (spec['task']['delta'],) if spec['task'].get('delta') else '')
+            oracle(EntryCtx(ctx, what), case, obs)
+            terms.append(case_lit(case, obs))
+            descr.append({'case': case, 'implementation': obs})
+    ctx.corr_check('cleanup_entries', 'Cleanup', 'corr_case', terms, 'check_case %d' % Q, lambda i: descr[i], shard=60)
     # 2f. names of the per-level sqlite files: which files of the directory go when one level is removed entirely
     from common import slit
     terms, descr = [], []
